@@ -20,6 +20,11 @@ export CARGO_NET_OFFLINE=true
 HEAD=$(git -C /repo rev-parse HEAD)
 git -C $WT checkout -q --detach $HEAD && git -C $WT checkout -q -- . && rm -f $WT/tests/demo_mutant.rs
 git -C $MUT checkout -q --detach $HEAD && git -C $MUT checkout -q -- .
+# XVF_EXTRA_PATCH=<file>: a repair of xot that is not committed to /repo yet (a long run is still reading
+# /repo) is applied to both scratch worktrees first; the seeded change is then judged on top of it
+if [ -n "${XVF_EXTRA_PATCH:-}" ]; then
+  git -C $WT apply "$XVF_EXTRA_PATCH" && git -C $MUT apply "$XVF_EXTRA_PATCH" || { echo "RESULT extra patch does not apply"; exit 3; }
+fi
 mkdir -p $H2/evidence
 rsync -a --delete --exclude target --exclude 'fuzz/target' --exclude 'fuzz/corpus' --exclude 'fuzz/artifacts' "$ROOT/harness" $H2/
 sed -i 's#xot = { path = "/repo" }#xot = { path = "/tmp/wt-mut" }#' $H2/harness/Cargo.toml $H2/harness/deep/Cargo.toml
@@ -29,8 +34,10 @@ suite=$(cd $WT && CARGO_TARGET_DIR=/tmp/wt-verify-target cargo test --offline 2>
 cp "$D/demo.rs" $WT/tests/demo_mutant.rs
 demo_with=$(cd $WT && CARGO_TARGET_DIR=/tmp/wt-verify-target cargo test --offline --test demo_mutant 2>&1 | grep -E "^test result" | awk '{p+=$4; f+=$6} END {print p" "f}')
 git -C $WT checkout -q -- .
+[ -n "${XVF_EXTRA_PATCH:-}" ] && git -C $WT apply "$XVF_EXTRA_PATCH"
 demo_without=$(cd $WT && CARGO_TARGET_DIR=/tmp/wt-verify-target cargo test --offline --test demo_mutant 2>&1 | grep -E "^test result" | awk '{p+=$4; f+=$6} END {print p" "f}')
 rm -f $WT/tests/demo_mutant.rs
+git -C $WT checkout -q -- .
 echo "suite(with patch) passed/failed: $suite | demo with patch: $demo_with | demo without: $demo_without"
 git -C $MUT apply "$D/patch.diff" || { echo "RESULT cannot apply to $MUT"; exit 3; }
 ( cd $H2/harness && cargo build --release --offline -q 2>/tmp/h2build.log ) || { echo "RESULT harness build failed"; tail -5 /tmp/h2build.log; git -C $MUT checkout -q -- .; exit 3; }
